@@ -10,6 +10,7 @@ pub struct Rng {
     /// decision tape (fuzz mode): the first draws are read from it, 8 bytes each
     tape: Option<Arc<Vec<u8>>>,
     pos: usize,
+    back: usize,
     mix: u64,
 }
 
@@ -58,7 +59,7 @@ impl Rng {
             x ^= h ^ seed.rotate_left(17);
         }
         let s = [splitmix(&mut x), splitmix(&mut x), splitmix(&mut x), splitmix(&mut x)];
-        Rng { s, tape, pos: 0, mix }
+        Rng { s, tape, pos: 0, back: usize::MAX, mix }
     }
     /// Derive an independent stream (e.g. per case) from a base seed and several labels.
     pub fn derive(seed: u64, labels: &[u64]) -> Self {
@@ -70,10 +71,16 @@ impl Rng {
     }
     pub fn next_u64(&mut self) -> u64 {
         if let Some(t) = &self.tape {
-            if self.pos + 8 <= t.len() {
+            // raw 64-bit draws (operand VALUES) are read from the back of the tape, small decisions
+            // (draw_mod) from the front: values stay inside the tape however many decisions precede
+            // them. The last 8 bytes are the case index (fuzz.rs).
+            if self.back == usize::MAX {
+                self.back = t.len().saturating_sub(8);
+            }
+            if self.back >= self.pos + 8 {
+                self.back -= 8;
                 let mut b = [0u8; 8];
-                b.copy_from_slice(&t[self.pos..self.pos + 8]);
-                self.pos += 8;
+                b.copy_from_slice(&t[self.back..self.back + 8]);
                 return u64::from_le_bytes(b) ^ self.mix;
             }
         }
@@ -87,25 +94,43 @@ impl Rng {
         self.s[3] = self.s[3].rotate_left(45);
         r
     }
+    /// tape mode: a decision among `n` alternatives consumes only as many tape bytes as it needs
+    /// (1 for n <= 256, 2 for n <= 65536, else 8), so that a tape of a few hundred bytes covers
+    /// the few hundred decisions of a case and raw operand draws stay inside the tape
+    fn draw_mod(&mut self, n: u64) -> u64 {
+        if let Some(t) = &self.tape {
+            let w = if n <= 256 { 1 } else if n <= 65536 { 2 } else { 8 };
+            let limit = if self.back == usize::MAX { t.len().saturating_sub(8) } else { self.back };
+            if w < 8 && self.pos + w <= limit {
+                let mut v = 0u64;
+                for k in 0..w {
+                    v |= (t[self.pos + k] as u64) << (8 * k);
+                }
+                self.pos += w;
+                return v % n;
+            }
+        }
+        self.next_u64() % n
+    }
     /// uniform in 0..n (n > 0)
     pub fn below(&mut self, n: usize) -> usize {
         if n <= 1 {
             return 0;
         }
-        (self.next_u64() % n as u64) as usize
+        self.draw_mod(n as u64) as usize
     }
     /// uniform in lo..=hi
     pub fn range(&mut self, lo: i64, hi: i64) -> i64 {
         if hi <= lo {
             return lo;
         }
-        lo + (self.next_u64() % ((hi - lo + 1) as u64)) as i64
+        lo + self.draw_mod((hi - lo + 1) as u64) as i64
     }
     pub fn chance(&mut self, num: u32, den: u32) -> bool {
-        (self.next_u64() % den as u64) < num as u64
+        self.draw_mod(den.max(1) as u64) < num as u64
     }
     pub fn bool(&mut self) -> bool {
-        self.next_u64() & 1 == 1
+        self.draw_mod(2) == 1
     }
     pub fn pick<'a, T>(&mut self, v: &'a [T]) -> &'a T {
         &v[self.below(v.len())]
